@@ -46,8 +46,11 @@ def check(rep, model, tier):
                       found=[[(T.show(k), T.show(v)) for k, v in b] for b in found] or 'no anchor arrays reach np.interp')
     g = model.find('_merge_phases')
     gsite = f'{g.path}:{g.node.lineno} _merge_phases'
-    impl, ctx = E.run(model, g.qual, {g.params[0]: ('param', 'up'), g.params[1]: ('param', 'dn')})
-    spec, _ = E.spec('merge', {'up': ('param', 'up'), 'dn': ('param', 'dn')})
+    # the two branch series are interpolated on the same time axis: one length
+    n_samp = ('atom', 'n_samples', 'int')
+    UP, DN = ('shaped', 'up', (n_samp,)), ('shaped', 'dn', (n_samp,))
+    impl, ctx = E.run(model, g.qual, {g.params[0]: UP, g.params[1]: DN})
+    spec, _ = E.spec('merge', {'up': UP, 'dn': DN})
     rep.compare('MERGE', '_merge_phases', gsite, impl, spec, ctx.unmodelled)
     idx_wrap(rep, model, [f, g])
     rep.floor('rule instances', len(rep.instances), 7)
